@@ -10,6 +10,7 @@ if [ $? -ne 0 ]; then
       known_findings.json) /venv/bin/python tools/merge_kf.py && git add known_findings.json ;;
       MANIFEST.json) git checkout --ours MANIFEST.json; git add MANIFEST.json ;;
       evidence/*|seeded/RESULTS.json) git checkout --ours $f; git add $f ;;
+      coq/theories/Gen/*.v) git checkout --theirs $f; git add $f ;;   # regenerated from /repo on the next run anyway
       *) echo "UNRESOLVED CONFLICT: $f" ;;
     esac
   done
